@@ -632,6 +632,7 @@ FIXED = [
     "from t | group g (sort {-a} | take 1 | select {b, c})",
     "let newest = (from t | group g (sort {-a} | take 1 | select {b, c}))\nfrom u | join newest (u.id == newest.b) | select {u.d, newest.c, newest.g}",
     "from u | join n = (from t | group g (take 1 | select {b, id})) (==id) | select {u.d, n.b, n.g}",
+    "from t | group {g, s} (select {a} | take 2) | sort g | select {a} | take 1",
     "from t | join c = (from u | join r = (from v | filter x > 1 | select {id, y}) (==id) | select {u.id, u.d, r.y}) (==id) | select {t.a, c.d, c.y}",
     "from t | append (from u | select {id} | append (from v | select {id} | append (from w | select {id = a})))",
     # F8's family: a top-level scalar value mentioned twice
